@@ -8,6 +8,7 @@ import random
 
 import common
 import progs
+import rewrites
 from common import run_tlc, run_oalv_parallel
 
 
@@ -41,6 +42,9 @@ def run(chk, tier):
             meta.append((i, "permuted"))
         cases.append(progs.harness_case(progs.rename_consistently(c["prog"]), style=0)[0])
         meta.append((i, "renamed"))
+        for q in rewrites.alpha_rename_each(c["prog"])[:2]:
+            cases.append(progs.harness_case(q, style=0)[0])
+            meta.append((i, "renamed"))              # one binder renamed apart (alpha-conversion)
     obs = run_oalv_parallel("compile", [dict(c, want={}) for c in cases], jobs=8)
     base = {}
     nontrivial = 0
@@ -97,6 +101,9 @@ def composites(chk, tier, rng):
             meta.append((i, "permuted"))
         cases.append(progs.harness_case(progs.rename_consistently(p), style=0)[0])
         meta.append((i, "renamed"))
+        for q in rewrites.alpha_rename_each(p)[:2]:
+            cases.append(progs.harness_case(q, style=0)[0])
+            meta.append((i, "renamed"))
     obs = run_oalv_parallel("compile", cases, jobs=8)
     base = {}
     agree = 0
